@@ -474,7 +474,7 @@ def gen_reentrant(rng, big, P):
     for rep in range(4 if big else 1):
         for method in METHODS:
             for dd in (2, 3):
-                if dd == 3 and not big and (method in ("Tanh-Sinh", "Trapezoidal") or (method in ("Gauss-Legendre", "Gauss-Kronrod") and method != pick3)): continue
+                if dd == 3 and (method == "Tanh-Sinh" or (not big and (method == "Trapezoidal" or (method in ("Gauss-Legendre", "Gauss-Kronrod") and method != pick3)))): continue
                 for _ in range(2 if dd == 2 else 1):
                     lims = [limits(rng, k, rng.random() < 0.6) for k in range(dd)]
                     if method == "Trapezoidal": facs = [rand_fac(rng, *lims[k], affine=True) for k in range(dd)]
@@ -496,8 +496,8 @@ def gen_reentrant(rng, big, P):
                                    (f"nested{dd}d", "reentrant", method, "inner-" + im)))
     # spherical: the radial profile written through an integral up to the norm of the vector
     for method in METHODS:
-        if not big and (method in ("Tanh-Sinh", "Trapezoidal") or (method in ("Gauss-Legendre", "Gauss-Kronrod") and method == pick3)): continue
-        for _ in range(3 if big else 1):
+        if method == "Trapezoidal" or (not big and (method == "Tanh-Sinh" or (method in ("Gauss-Legendre", "Gauss-Kronrod") and method == pick3))): continue
+        for _ in range(3 if big and method != "Tanh-Sinh" else 1):
             r1 = rng.uniform(0.1, 1.0); r2 = r1 + rng.uniform(0.5, 1.5)
             if rng.random() < 0.4: r1, r2 = r2, r1
             c1 = rng.uniform(-1.0, 0.5); c2 = rng.uniform(c1 + 0.2, 1.0); f1 = rng.uniform(0.0, 4.0); f2 = rng.uniform(f1 + 0.3, 6.28)
@@ -521,7 +521,7 @@ def gen_reentrant(rng, big, P):
 #      geometric ladder of relative distances
 def gen_ties(rng, big, P):
     cs = []
-    ladder = [0.0, 0.0, "ulp+", "ulp-", 1e-15, 1e-12, 1e-9, 1e-6] if big else [0.0, 0.0, 0.0, rng.choice(["ulp+", "ulp-"]), rng.choice([1e-15, 1e-12, 1e-9, 1e-6])]
+    ladder = [0.0, rng.choice(["ulp+", "ulp-"]), rng.choice([1e-15, 1e-13, 1e-11]), rng.choice([1e-9, 1e-7, 1e-6])] if big else [0.0, 0.0, 0.0, rng.choice(["ulp+", "ulp-"]), rng.choice([1e-15, 1e-12, 1e-9, 1e-6])]
 
     def near(v, step):
         if step == 0.0: return v
@@ -559,7 +559,7 @@ def gen_ties(rng, big, P):
             for step in (ladder if big else [0.0] if i < j else [rng.choice(ladder[3:])]):
                 count += 1
                 method = METHODS[count % len(METHODS)]
-                if method in ("Tanh-Sinh", "Trapezoidal") and not big: method = rng.choice(["Gauss-Legendre", "Gauss-Kronrod", "Gauss-Legendre_2", "Adaptive-Simpson"])
+                if (method in ("Tanh-Sinh", "Trapezoidal") and not big) or (method == "Trapezoidal" and step != 0.0): method = rng.choice(["Gauss-Legendre", "Gauss-Kronrod", "Gauss-Legendre_2", "Adaptive-Simpson"])
                 ai, aj = i // 2, j // 2
                 lo = max(rng_of[ai][0], rng_of[aj][0], 0.05); hi = min(rng_of[ai][1], rng_of[aj][1]) - 1e-3
                 v = rng.choice([rng.uniform(lo, hi), 0.5, 1.0 if hi > 0.99 else 0.25, 0.0 if 0 not in (ai, aj) else 0.75])
@@ -662,9 +662,10 @@ def gen_sharp(rng, big):
         for p in (1, 2, 3, 8, 15):
             K = math.exp(rng.uniform(math.log(150.0), math.log(3000.0)))
             for op in ("named1d", "nested2d", "spherical") + (("nested3d",) if big else ()):
-                if op == "spherical":
-                    if p in (3, 8, 15) and not big: continue
+                if dims(op) == 3:            # three nested adaptive levels: shallow depths and moderate peaks only
+                    if p in (8, 15) or (p == 3 and not big): continue
                     K = min(K, 600.0)
+                if op == "spherical":
                     r1 = rng.uniform(0.3, 0.8); r2 = r1 + rng.uniform(0.6, 1.2)
                     g = sharp_fac(r1, r2, K)
                     if rng.random() < 0.5: r1, r2 = r2, r1
